@@ -16,7 +16,7 @@ def run(ctx):
     cov = {}
     if ctx.harness_ok:
         kf = syscheck.replay_known(ctx, 'C08', ['alu', 'hazard', 'branch', 'mixed', 'mem'])
-        progs = [gen_program(rng, prof) for prof in ['alu', 'ssa', 'hazard', 'branch', 'loops', 'ldonly', 'touched', 'mem', 'mixed', 'shadow'] for _ in range(n)]
+        progs = [gen_program(rng, prof) for prof in ['alu', 'ssa', 'ssald', 'ssamem', 'hazard', 'branch', 'loops', 'ldonly', 'touched', 'mem', 'mixed', 'shadow'] for _ in range(n)]
         spec, sl = S.run_spec(ctx, progs, 'c08-s')
         rep_lines, rep_meta, fresh_jobs = [], [], []
         reuse_lines, reuse_meta = [], []
